@@ -84,33 +84,50 @@ theorem C04_exec_bind_byval_all (t : Tok) : ∀ (ps : List (Str × Ty × Bool)) 
 
 /-- **BYREF binding to a variable.**  A BYREF parameter `pn : pty`, the argument expression is the name `x`, which
     denotes (in the current activation, else globally) the variable slot `s` of activation `a`; the argument value `v`
-    has exactly the type `pty` (no implicit cast for BYREF).  Then the parameter slot has no value of its own and is an
+    has exactly the type `pty` (no implicit cast for BYREF), and so has the variable `x` itself (`s.ty = pty`: the
+    reference is resolved a second time for the alias, and the variable actually bound is checked as well —
+    `C04_exec_bind_byref_retyped`).  Then the parameter slot has no value of its own and is an
     alias of the location of `x` (`holderOf`: the cell of `x`; the caller's location again if `x` is itself a BYREF
     formal); its type is the type of `x`, it is a constant iff the root of that location is.  State unchanged. -/
 theorem C04_exec_bind_byref (f : Nat) (t at' x : Tok) (pn : Str) (pty : Ty) (v : Val) (σ : St) (cur g : Act)
     (rest : List Act) (a : Act) (s : Slot)
     (hacts : σ.acts = cur :: rest) (hg : σ.acts.getLast? = some g) (hx : lookupVarIn cur g x.val = some (a, s))
-    (hty : v.ty = pty) :
+    (hty : v.ty = pty) (hsty : s.ty = pty) :
     (bindParams (f+2) t [(pn, pty, true)] [.access at' (.var x)] [v] []).run.run σ =
       (.ok [{ name := pn, ty := s.ty, isConst := locConstP σ (holderOf a s).loc, val := .none,
               ref := some (holderOf a s).loc }], σ) := by
   rw [run_bindParams_byref (f+1) t pn pty [] at' (.var x) [] v [] [] σ σ (holderOf a s) hty
     (run_resolveRef_var σ cur g rest x f a s hacts hg hx)]
   simp only [holderOf_isArr, Bool.false_eq_true, if_false]
-  rw [run_bindParams_done]
+  rw [if_pos (by rw [holderOf_ty]; exact hsty), run_bindParams_done]
   simp only [byrefSlot, holderOf_ty, List.reverse_cons, List.reverse_nil, List.nil_append]
 
 /-- **BYREF binding to any reference** (array element `a[i]`, record field `r.f`, dereference `p^`): if the reference
-    resolves to the non-array holder `h` (in state `σ'`: an index expression may have an effect), the parameter is an
-    alias of `h.loc` of type `h.ty`. -/
+    resolves to the non-array holder `h` (in state `σ'`: an index expression may have an effect) of the parameter's
+    type (`h.ty = pty`), the parameter is an alias of `h.loc` of type `h.ty`. -/
 theorem C04_exec_bind_byref_ref (f : Nat) (t at' : Tok) (r : Ref) (pn : Str) (pty : Ty) (v : Val) (σ σ' : St) (h : Holder)
-    (hr : (resolveRef (f+1) r).run.run σ = (.ok h, σ')) (harr : h.isArr = false) (hty : v.ty = pty) :
+    (hr : (resolveRef (f+1) r).run.run σ = (.ok h, σ')) (harr : h.isArr = false) (hty : v.ty = pty) (hhty : h.ty = pty) :
     (bindParams (f+2) t [(pn, pty, true)] [.access at' r] [v] []).run.run σ =
       (.ok [{ name := pn, ty := h.ty, isConst := locConstP σ' h.loc, val := .none, ref := some h.loc }], σ') := by
   rw [run_bindParams_byref (f+1) t pn pty [] at' r [] v [] [] σ σ' h hty hr]
   simp only [harr, Bool.false_eq_true, if_false]
-  rw [run_bindParams_done]
+  rw [if_pos hhty, run_bindParams_done]
   rfl
+
+/-- **BYREF, the variable actually bound has another type.**  The argument value `v` (from the evaluation of the
+    argument expression) has the parameter's type, but the reference — resolved a second time to make the alias —
+    yields a non-array holder `h` of another type (`h.ty ≠ pty`: possible only when an index expression has a side
+    effect, so that the second resolution selects another variable than the evaluation did): the runtime diagnostic
+    `invalidArgs` at the call token; nothing is bound, the state is the one after resolving.  (The repaired C++
+    re-checks `original.type != parameter.type` after re-resolving; before the repair this was a crash.) -/
+theorem C04_exec_bind_byref_retyped (f : Nat) (t at' : Tok) (r : Ref) (pn : Str) (pty : Ty) (v : Val) (σ σ' : St)
+    (h : Holder) (hr : (resolveRef (f+1) r).run.run σ = (.ok h, σ')) (harr : h.isArr = false) (hty : v.ty = pty)
+    (hhty : h.ty ≠ pty) :
+    (bindParams (f+2) t [(pn, pty, true)] [.access at' r] [v] []).run.run σ =
+      (.error (.diag (rtDiag σ' t.line t.col .invalidArgs)), σ') := by
+  rw [run_bindParams_byref (f+1) t pn pty [] at' r [] v [] [] σ σ' h hty hr]
+  simp only [harr, Bool.false_eq_true, if_false]
+  rw [if_neg hhty]
 
 /-- **BYREF, the argument is not a variable**: an argument expression that is not a reference (a literal, an
     arithmetic / comparison / logical expression, a concatenation, a cast, a function call, an assignment — everything
@@ -400,7 +417,8 @@ theorem C04_exec_byref_param_reads_caller (σ : St) (new : Act) (restA : List Ac
     BYREF, whose body is the ONE statement `p <- rhs`, called with a plain variable `x` as argument.
     `x` denotes the variable slot `sx` of activation `a` (the caller's own or the global one); its location
     `(holderOf a sx).loc` (the cell of `x`, or — if `x` is itself a BYREF formal of the caller — the location `x`
-    aliases) reads `v`, of exactly the parameter type, and is not a constant; `rhs` evaluates purely to `rv` in the
+    aliases) reads `v`, of exactly the parameter type — which is also the declared type of `x` (`sx.ty = pty`; for a
+    typed store this follows from `v.ty = pty`) —, and is not a constant; `rhs` evaluates purely to `rv` in the
     callee's state and fits the type of `x`; all live ids are below the id counter (`IdsBelow`, true initially and
     preserved: `C04_idsBelow_preserved`).  Then the call ends normally and afterwards
     1. `x` reads the assigned value (cast to the type of `x`);
@@ -412,7 +430,7 @@ theorem C04_exec_byref_visible (σ : St) (cur g : Act) (rest : List Act) (t xt x
     (hpd : σ.procs.find? (·.name == name) = some pd)
     (hparams : pd.params = [(pn, pty, true)]) (hbody : pd.body = [.expr (.assign at' (.var pt) rhs)]) (hpt : pt.val = pn)
     (hx : lookupVarIn cur g x.val = some (a, sx))
-    (hxv : readLocP σ (holderOf a sx).loc = .ok v) (hty : v.ty = pty)
+    (hxv : readLocP σ (holderOf a sx).loc = .ok v) (hty : v.ty = pty) (hsty : sx.ty = pty)
     (hnc : locConstP σ (holderOf a sx).loc = false)
     (hdepth : σ.depth + 1 ≤ σ.depthLimit) (hsteps : σ.steps + 1 ≤ σ.stepLimit)
     (hrhs : PureAt (tickSt (C04.bodySt σ cur.id t (procAct pd [byrefSlot pn (holderOf a sx) false]))) f₀ rhs rv)
@@ -435,7 +453,7 @@ theorem C04_exec_byref_visible (σ : St) (cur g : Act) (rest : List Act) (t xt x
       run_resolveRef_var_meta σ cur g rest x f' a sx cur.id _ (fun _ => ⟨rfl, rfl, rfl⟩) hacts hg hx
     rw [hparams, run_bindParams_byref (f'+1) t pn pty [] xt (.var x) [] v [] [] _ _ (holderOf a sx) hty hr]
     simp only [holderOf_isArr, Bool.false_eq_true, if_false]
-    rw [run_bindParams_done, locConstP_setSwitch, hnc]
+    rw [if_pos (by rw [holderOf_ty]; exact hsty), run_bindParams_done, locConstP_setSwitch, hnc]
     rfl
   have hrun := run_callProc (f'+2) t name [.access xt (.var x)] σ σ (setSwitch σ cur.id t) pd [v] cur rest
     [byrefSlot pn (holderOf a sx) false] hpd hargs (by rw [hparams]; rfl) hdepth hacts hbind
@@ -868,7 +886,7 @@ example : (bindParams 5 callT [("p".toList, .bool, false)] [var "x"] [.int 1] []
   rw [C04_exec_bind_byval 3 callT "p".toList .bool (var "x") (.int 1) exSt, if_neg (by decide)]; rfl
 example : (bindParams 5 callT [("p".toList, .int, true)] [var "x"] [.int 1] []).run.run exSt =
     (.ok [{ name := "p".toList, ty := .int, isConst := false, val := .none, ref := some locX }], exSt) :=
-  C04_exec_bind_byref 3 callT (tk "x") (tk "x") "p".toList .int (.int 1) exSt glob glob [] glob slotX rfl rfl rfl rfl
+  C04_exec_bind_byref 3 callT (tk "x") (tk "x") "p".toList .int (.int 1) exSt glob glob [] glob slotX rfl rfl rfl rfl rfl
 example : (bindParams 5 callT [("p".toList, .int, true)] [lit 1] [.int 1] []).run.run exSt =
     (.error (.diag (rtDiag exSt 9 1 .byrefArg)), exSt) :=
   C04_exec_bind_byref_nonref 3 callT "p".toList .int (lit 1) (.int 1) exSt rfl ((C04_exec_nonref_exprs _).1 1)
@@ -878,6 +896,17 @@ example : (bindParams 5 callT [("p".toList, .int, true)] [.arith (tk "+") .add (
 example : (bindParams 5 callT [("p".toList, .real, true)] [var "x"] [.int 1] []).run.run exSt =
     (.error (.diag (rtDiag exSt 9 1 .invalidArgs)), exSt) :=
   C04_exec_bind_byref_type 3 callT "p".toList .real (var "x") (.int 1) exSt (by decide)
+
+/-- the re-check of the variable actually bound: in a (hand-made, ill-typed) state in which `z` is declared REAL but
+    holds an INTEGER, the argument value passes the first check and the re-resolved variable is refused -/
+example : (bindParams 5 callT [("p".toList, .int, true)] [var "z"] [.int 1] []).run.run
+      { exSt with acts := [{ glob with vars := [{ name := "z".toList, ty := .real, val := .int 1 }] }] } =
+    (.error (.diag (rtDiag { exSt with acts := [{ glob with vars := [{ name := "z".toList, ty := .real, val := .int 1 }] }] }
+      9 1 .invalidArgs)), { exSt with acts := [{ glob with vars := [{ name := "z".toList, ty := .real, val := .int 1 }] }] }) :=
+  C04_exec_bind_byref_retyped 3 callT (tk "z") (.var (tk "z")) "p".toList .int (.int 1) _ _
+    (holderOf { glob with vars := [{ name := "z".toList, ty := .real, val := .int 1 }] } { name := "z".toList, ty := .real, val := .int 1 })
+    (run_resolveRef_var _ { glob with vars := [{ name := "z".toList, ty := .real, val := .int 1 }] }
+      { glob with vars := [{ name := "z".toList, ty := .real, val := .int 1 }] } [] (tk "z") 3 _ _ rfl rfl rfl) rfl rfl (by decide)
 
 /-- the parser drops parentheses: the argument `(x)` is the reference `x` (so it may be passed BYREF) -/
 def argIsVarAccess (src : String) : Bool :=
@@ -936,7 +965,7 @@ example : readLocP ((runBlock 19 procPV.body).run.run
 theorem byref_run : ∃ σ', (callProc 20 callT "PR".toList [var "x"]).run.run exSt = (.ok ⟨⟩, σ') ∧
     readLocP σ' locX = .ok (.int 5) ∧ readLocP σ' locY = .ok (.int 7) ∧ σ'.acts.map (·.id) = [0] := by
   obtain ⟨σ', h1, h2, h3, h4⟩ := C04_exec_byref_visible exSt glob glob [] callT (tk "x") (tk "x") (tk "<-" 2 3) (tk "p" 2 1)
-    "PR".toList procPR "p".toList .int (lit 5) (.int 1) (.int 5) glob slotX 2 20 rfl rfl idsBelow rfl rfl rfl rfl rfl rfl rfl rfl
+    "PR".toList procPR "p".toList .int (lit 5) (.int 1) (.int 5) glob slotX 2 20 rfl rfl idsBelow rfl rfl rfl rfl rfl rfl rfl rfl rfl
     (by decide) (by decide) ((pureAt_intLit _ _ 5).mono (by decide)) rfl rfl (by decide)
   exact ⟨σ', h1, h2, by rw [h3 locY (.inr (.inr (by decide)))]; rfl, h4⟩
 /-- the same by running the model -/
